@@ -1,0 +1,6 @@
+//go:build !verif
+
+package graph
+
+// verifPop is a no-op unless built with the "verif" tag.
+func verifPop(v interface{}) {}
